@@ -419,10 +419,14 @@ func (r *FnRun) execSimple(fr *Frame, st *State, in ssa.Instruction) {
 		fr.vals[x] = m
 	case *ssa.MakeClosure:
 		var bind []Val
-		for _, b := range x.Bindings {
+		for i, b := range x.Bindings {
 			bv := r.val(fr, st, b)
 			if p, ok := bv.(PtrVal); ok && p.Kind == pkCell {
-				st.hv["escaped:"+p.Cell.key()] = true
+				// a captured variable can change behind our back only if the
+				// closure does more with it than read it
+				if cfn, ok := x.Fn.(*ssa.Function); !ok || i >= len(cfn.FreeVars) || !freeVarReadOnly(cfn.FreeVars[i], 0) {
+					st.hv["escaped:"+p.Cell.key()] = true
+				}
 			}
 			bind = append(bind, bv)
 		}
